@@ -674,3 +674,269 @@ Proof.
     try (destruct H as [? [? [? [? H]]]]; try congruence; destruct (H eq_refl) as [? [? ?]]; congruence);
     try (right; reflexivity); try (left; reflexivity).
 Qed.
+
+(* ================================================================== live control connection: nested refreshes *)
+Definition st0 : state := Build_state [] false None.
+Definition Kof (c : config) (sn : snapshot) : endpoint -> bool := keep c (found_all c st0 sn).
+Definition Aof (c : config) (sn : snapshot) : list endpoint := acc_keys c st0 sn.
+Definition nofuel (evs : list event) : Prop :=
+  forallb (fun x => match x with EOutOfFuel => false | _ => true end) evs = true.
+
+Lemma lr_found_indep : forall c st st' sn, lr_found (local_part c st sn) = lr_found (local_part c st' sn).
+Proof.
+  intros c st st' sn. unfold local_part. destruct (sn_local sn); [|reflexivity].
+  destruct (find (control c) (st_hosts st)), (find (control c) (st_hosts st')); reflexivity.
+Qed.
+
+Lemma accepted_indep : forall c st st' sn, accepted c st sn = accepted c st' sn.
+Proof. intros. unfold accepted. rewrite (lr_found_indep c st st' sn). reflexivity. Qed.
+
+Lemma K_indep : forall c st sn, keep c (found_all c st sn) = Kof c sn.
+Proof.
+  intros c st sn. unfold Kof, found_all. rewrite (lr_found_indep c st st0 sn), (accepted_indep c st st0 sn). reflexivity.
+Qed.
+
+Lemma A_indep : forall c st sn, acc_keys c st sn = Aof c sn.
+Proof. intros. unfold Aof, acc_keys. rewrite (accepted_indep c st st0 sn). reflexivity. Qed.
+
+Lemma A_kept : forall c sn e, In e (Aof c sn) -> Kof c sn e = true.
+Proof.
+  intros c sn e H. unfold Kof. apply keep_true. right. unfold found_all. apply in_or_app. right. exact H.
+Qed.
+
+Lemma filter_false_nil : forall {A} (p : A -> bool) l, (forall x, In x l -> p x = false) -> filter p l = [].
+Proof.
+  intros A p l H. induction l as [|x r IH]; [reflexivity|]. simpl. rewrite (H x (or_introl eq_refl)).
+  apply IH. intros y Hy. apply H. right. exact Hy.
+Qed.
+
+Lemma filter_true_id : forall {A} (p : A -> bool) l, (forall x, In x l -> p x = true) -> filter p l = l.
+Proof.
+  intros A p l H. induction l as [|x r IH]; [reflexivity|]. simpl. rewrite (H x (or_introl eq_refl)). f_equal.
+  apply IH. intros y Hy. apply H. right. exact Hy.
+Qed.
+
+(* a state that already holds every accepted endpoint gains no host from the peers loop *)
+Lemma mid_keys_closed : forall c st sn, (forall e, In e (Aof c sn) -> In e (keys (st_hosts st))) ->
+  keys (hosts_mid c st sn) = keys (st_hosts st).
+Proof.
+  intros c st sn H. rewrite mid_keys. unfold new_keys. rewrite filter_false_nil; [apply app_nil_r|].
+  intros e He. rewrite fresh_local. apply negb_false_iff. apply mem_In. apply H. rewrite <- (A_indep c st sn). exact He.
+Qed.
+
+Lemma remove_host_keys : forall e hs, keys (remove_host e hs) = filter (fun x => negb (ep_eqb x e)) (keys hs).
+Proof. intros e hs. unfold remove_host. apply (keys_filter (fun x => negb (ep_eqb x e))). Qed.
+
+Lemma In_remove_host : forall e hs x, In x (keys (remove_host e hs)) <-> In x (keys hs) /\ x <> e.
+Proof.
+  intros e hs x. rewrite remove_host_keys, filter_In, negb_true_iff, ep_eqb_neq. tauto.
+Qed.
+
+Lemma nofuel_app : forall a b, nofuel (a ++ b) <-> nofuel a /\ nofuel b.
+Proof. intros a b. unfold nofuel. rewrite forallb_app, andb_true_iff. tauto. Qed.
+
+Lemma nofuel_local : forall c st sn, nofuel (lr_events (local_part c st sn)).
+Proof.
+  intros c st sn. unfold local_part. destruct (sn_local sn); [|reflexivity].
+  destruct (find (control c) (st_hosts st)); [|reflexivity]. simpl. unfold update_location.
+  destruct (same_location _ _ _); reflexivity.
+Qed.
+
+Lemma nofuel_apply_rows : forall ers hs, nofuel (snd (fst (apply_rows hs ers))).
+Proof.
+  intros ers. induction ers as [|[e r] rest IH]; intros hs; [reflexivity|].
+  rewrite apply_rows_cons. cbn [fst snd]. apply nofuel_app. split; [|apply IH].
+  unfold apply_row. destruct (find e hs) as [h|]; [|reflexivity].
+  unfold update_location. destruct (same_location h (r_dc r) (r_rack r)); reflexivity.
+Qed.
+
+Definition R (evs : list event) : list endpoint := listener_removes evs.
+
+Lemma R_app : forall a b, R (a ++ b) = R a ++ R b.
+Proof. intros. unfold R, listener_removes. apply flat_map_app. Qed.
+
+Lemma R_local : forall c st sn, R (lr_events (local_part c st sn)) = [].
+Proof. intros. pose proof (local_proj c st sn) as H. unfold proj4 in H. injection H as _ _ H _. exact H. Qed.
+
+Lemma R_peers : forall c st sn, R (snd (fst (peers_part c st sn))) = [].
+Proof.
+  intros. unfold peers_part.
+  pose proof (apply_rows_proj (accepted c st sn) (lr_hosts (local_part c st sn)) (accept_NoDup _ _ _)) as H.
+  unfold proj4 in H. injection H as _ _ H _. exact H.
+Qed.
+
+(* what one (nested or outer) refresh guarantees, as used by the loop *)
+Definition good (c : config) (sn : snapshot) (H : list endpoint) (r : state * list event) : Prop :=
+  keys (st_hosts (fst r)) = filter (Kof c sn) H /\ NoDup (R (snd r)) /\
+  (forall e, In e (R (snd r)) <-> In e H /\ Kof c sn e = false) /\ nofuel (snd r).
+
+Lemma loop_spec : forall c sn (rec : state -> state * list event) n,
+  (forall st, NoDup (keys (st_hosts st)) -> (forall e, In e (Aof c sn) -> In e (keys (st_hosts st))) ->
+              (length (st_hosts st) < n)%nat -> good c sn (keys (st_hosts st)) (rec st)) ->
+  forall l s, NoDup (keys (st_hosts s)) -> (forall e, In e (Aof c sn) -> In e (keys (st_hosts s))) ->
+    (forall e, In e (keys (st_hosts s)) -> Kof c sn e = false -> In e l) -> (length (st_hosts s) <= n)%nat ->
+    good c sn (keys (st_hosts s)) (fst (remove_loop rec (Kof c sn) l s)).
+Proof.
+  intros c sn rec n Hrec l. induction l as [|e l IH]; intros s Hnd Hacc Hpend Hlen.
+  - simpl. unfold good. simpl. split; [|split; [|split]].
+    + symmetry. apply filter_true_id. intros x Hx. destruct (Kof c sn x) eqn:Ek; [reflexivity|]. destruct (Hpend x Hx Ek).
+    + constructor.
+    + intros e. split; [intros []|]. intros [Hx Hk]. exact (Hpend e Hx Hk).
+    + reflexivity.
+  - simpl. destruct (Kof c sn e) eqn:Ek.
+    + apply IH; try assumption. intros x Hx Hk. destruct (Hpend x Hx Hk) as [Heq|Hin]; [subst x; congruence|exact Hin].
+    + destruct (mem e (map fst (st_hosts s))) eqn:Em.
+      * apply mem_In in Em. fold (keys (st_hosts s)) in Em.
+        set (s1 := with_hosts s (remove_host e (st_hosts s))).
+        assert (Hnd1 : NoDup (keys (st_hosts s1))).
+        { simpl. rewrite remove_host_keys. apply NoDup_filter'. exact Hnd. }
+        assert (Hacc1 : forall x, In x (Aof c sn) -> In x (keys (st_hosts s1))).
+        { intros x Hx. simpl. apply In_remove_host. split; [apply Hacc; exact Hx|]. intro Heq. subst x.
+          rewrite (A_kept c sn e Hx) in Ek. discriminate Ek. }
+        assert (Hlen1 : (length (st_hosts s1) < n)%nat).
+        { simpl. unfold remove_host.
+          destruct (proj1 (in_map_iff fst (st_hosts s) e) Em) as [[e' h] [He Hin]]. simpl in He. subst e'.
+          pose proof (filter_length_lt (fun eh : endpoint * host => negb (ep_eqb (fst eh) e)) (st_hosts s) (e, h) Hin) as Hlt.
+          simpl in Hlt. rewrite ep_eqb_refl in Hlt. specialize (Hlt eq_refl). lia. }
+        destruct (Hrec s1 Hnd1 Hacc1 Hlen1) as [G1 [G2 [G3 G4]]].
+        destruct (rec s1) as [s2 ev2] eqn:Er. cbn [fst snd] in G1, G2, G3, G4.
+        assert (Hk1 : filter (Kof c sn) (keys (st_hosts s1)) = filter (Kof c sn) (keys (st_hosts s))).
+        { simpl. rewrite remove_host_keys. clear -Ek. induction (keys (st_hosts s)) as [|x r IHr]; [reflexivity|]. simpl.
+          destruct (ep_eqb x e) eqn:Ex; simpl.
+          - apply ep_eqb_eq in Ex. subst x. rewrite Ek. exact IHr.
+          - destruct (Kof c sn x); [f_equal|]; exact IHr. }
+        assert (Hnd2 : NoDup (keys (st_hosts s2))) by (rewrite G1; apply NoDup_filter'; exact Hnd1).
+        assert (Hacc2 : forall x, In x (Aof c sn) -> In x (keys (st_hosts s2))).
+        { intros x Hx. rewrite G1. apply filter_In. split; [apply Hacc1; exact Hx|apply A_kept; exact Hx]. }
+        assert (Hpend2 : forall x, In x (keys (st_hosts s2)) -> Kof c sn x = false -> In x l).
+        { intros x Hx Hk. rewrite G1 in Hx. apply filter_In in Hx. destruct Hx as [_ Hx]. congruence. }
+        assert (Hlen2 : (length (st_hosts s2) <= n)%nat).
+        { assert (Hl : length (keys (st_hosts s2)) = length (st_hosts s2)) by apply map_length.
+          rewrite <- Hl, G1. pose proof (filter_len_le (Kof c sn) (keys (st_hosts s1))) as Hle.
+          assert (Hl1 : length (keys (st_hosts s1)) = length (st_hosts s1)) by apply map_length. lia. }
+        destruct (IH s2 Hnd2 Hacc2 Hpend2 Hlen2) as [F1 [F2 [F3 F4]]].
+        destruct (remove_loop rec (Kof c sn) l s2) as [[s3 ev3] b3]. cbn [fst snd] in *.
+        assert (HR3 : R ev3 = []).
+        { destruct (R ev3) as [|x r] eqn:E3; [reflexivity|]. exfalso.
+          destruct (proj1 (F3 x) (or_introl eq_refl)) as [Hx Hk]. rewrite G1 in Hx. apply filter_In in Hx. destruct Hx as [_ Hx]. congruence. }
+        assert (HRall : R (ELbpRemove e :: EListenerRemove e :: ev2 ++ ev3) = e :: R ev2).
+        { change (R ([ELbpRemove e; EListenerRemove e] ++ ev2 ++ ev3) = e :: R ev2). rewrite !R_app, HR3, app_nil_r. reflexivity. }
+        unfold good. cbn [fst snd]. split; [|split; [|split]].
+        -- rewrite F1, G1. rewrite Hk1.
+           clear. induction (keys (st_hosts s)) as [|x r IHr]; [reflexivity|]. simpl.
+           destruct (Kof c sn x) eqn:Ex; simpl; [rewrite Ex; f_equal|]; exact IHr.
+        -- rewrite HRall. constructor; [|exact G2]. intro Hin. apply G3 in Hin. destruct Hin as [Hin _]. simpl in Hin.
+           apply In_remove_host in Hin. destruct Hin as [_ Hne]. apply Hne. reflexivity.
+        -- intros x. rewrite HRall. simpl. split.
+           ++ intros [Heq|Hin]; [subst x; split; [exact Em|exact Ek]|].
+              apply G3 in Hin. destruct Hin as [Hin Hk]. simpl in Hin. apply In_remove_host in Hin. split; [exact (proj1 Hin)|exact Hk].
+           ++ intros [Hx Hk]. destruct (ep_eqb x e) eqn:Ee.
+              ** apply ep_eqb_eq in Ee. left. symmetry. exact Ee.
+              ** apply ep_eqb_neq in Ee. right. apply G3. split; [|exact Hk]. simpl. apply In_remove_host. split; assumption.
+        -- change (nofuel ([ELbpRemove e; EListenerRemove e] ++ ev2 ++ ev3)). apply nofuel_app. split; [reflexivity|]. apply nofuel_app. split; assumption.
+      * apply mem_false in Em. fold (keys (st_hosts s)) in Em.
+        assert (Hpend' : forall x, In x (keys (st_hosts s)) -> Kof c sn x = false -> In x l).
+        { intros x Hx Hk. destruct (Hpend x Hx Hk) as [Heq|Hin]; [subst x; contradiction|exact Hin]. }
+        specialize (IH s Hnd Hacc Hpend' Hlen).
+        destruct (remove_loop rec (Kof c sn) l s) as [[s3 ev3] b3]. exact IH.
+Qed.
+
+Lemma refresh_live_S : forall n c force st sn, refresh_live (S n) c force st sn =
+  let mid := hosts_mid c st sn in
+  let '(s2, ev2, removed) :=
+    remove_loop (fun s => refresh_live n c true s sn) (keep c (found_all c st sn)) (map fst mid) (with_hosts st mid) in
+  let evs := lr_events (local_part c st sn) ++ snd (fst (peers_part c st sn)) ++ ev2 in
+  let rebuild := force || negb (st_partitioner st) || snd (peers_part c st sn) || removed in
+  if lr_part (local_part c st sn) && rebuild then
+    ({| st_hosts := st_hosts s2; st_partitioner := true; st_tokens := Some (snapshot_tokens c st sn) |},
+     evs ++ [ERebuild (snapshot_tokens c st sn)])
+  else (s2, evs).
+Proof. reflexivity. Qed.
+
+Lemma live_spec : forall c sn n f st, NoDup (keys (st_hosts st)) -> (length (hosts_mid c st sn) < n)%nat ->
+  good c sn (keys (hosts_mid c st sn)) (refresh_live n c f st sn).
+Proof.
+  intros c sn n. induction n as [|n IH]; intros f st Hnd Hlen; [lia|].
+  rewrite refresh_live_S. cbv zeta. rewrite K_indep.
+  assert (Hrec : forall st', NoDup (keys (st_hosts st')) -> (forall e, In e (Aof c sn) -> In e (keys (st_hosts st'))) ->
+                 (length (st_hosts st') < n)%nat -> good c sn (keys (st_hosts st')) (refresh_live n c true st' sn)).
+  { intros st' Hnd' Hacc' Hlen'. rewrite <- (mid_keys_closed c st' sn Hacc'). apply IH; [exact Hnd'|].
+    assert (Hl : length (keys (hosts_mid c st' sn)) = length (hosts_mid c st' sn)) by apply map_length.
+    rewrite <- Hl, (mid_keys_closed c st' sn Hacc'). unfold keys. rewrite map_length. exact Hlen'. }
+  assert (Hacc : forall e, In e (Aof c sn) -> In e (keys (hosts_mid c st sn))).
+  { intros e He. rewrite mid_keys. rewrite <- (A_indep c st sn) in He.
+    destruct (mem e (keys (st_hosts st))) eqn:Em.
+    - apply in_or_app. left. apply mem_In. exact Em.
+    - apply in_or_app. right. apply In_new_keys. split; [apply mem_false; exact Em|exact He]. }
+  pose proof (loop_spec c sn (fun s => refresh_live n c true s sn) n Hrec (map fst (hosts_mid c st sn))
+                (with_hosts st (hosts_mid c st sn)) (mid_NoDup c st sn Hnd) Hacc (fun e He _ => He)) as Hloop.
+  assert (Hle : (length (st_hosts (with_hosts st (hosts_mid c st sn))) <= n)%nat) by (simpl; lia).
+  specialize (Hloop Hle). simpl st_hosts in Hloop.
+  destruct (remove_loop (fun s => refresh_live n c true s sn) (Kof c sn) (map fst (hosts_mid c st sn))
+              (with_hosts st (hosts_mid c st sn))) as [[s2 ev2] removed].
+  destruct Hloop as [G1 [G2 [G3 G4]]]. cbn [fst snd] in G1, G2, G3, G4.
+  assert (HR : forall tail, R tail = [] -> R (lr_events (local_part c st sn) ++ snd (fst (peers_part c st sn)) ++ ev2 ++ tail) = R ev2).
+  { intros tail Ht. rewrite !R_app, R_local, R_peers, Ht, app_nil_r. reflexivity. }
+  assert (HF : forall tail, nofuel tail -> nofuel (lr_events (local_part c st sn) ++ snd (fst (peers_part c st sn)) ++ ev2 ++ tail)).
+  { intros tail Ht. apply nofuel_app. split; [apply nofuel_local|]. apply nofuel_app. split; [apply nofuel_apply_rows|].
+    apply nofuel_app. split; assumption. }
+  destruct (lr_part (local_part c st sn) && (f || negb (st_partitioner st) || snd (peers_part c st sn) || removed)).
+  - unfold good. cbn [fst snd st_hosts]. rewrite <- !app_assoc.
+    rewrite (HR [ERebuild (snapshot_tokens c st sn)] eq_refl).
+    split; [exact G1|]. split; [exact G2|]. split; [exact G3|]. apply HF. reflexivity.
+  - unfold good. cbn [fst snd].
+    assert (E : lr_events (local_part c st sn) ++ snd (fst (peers_part c st sn)) ++ ev2 =
+                lr_events (local_part c st sn) ++ snd (fst (peers_part c st sn)) ++ ev2 ++ []) by (rewrite app_nil_r; reflexivity).
+    rewrite E, (HR [] eq_refl). split; [exact G1|]. split; [exact G2|]. split; [exact G3|]. apply HF. reflexivity.
+Qed.
+
+(* listeners and policies are told about the same removals, in the same order *)
+Lemma loop_removes_same : forall (rec : state -> state * list event) K,
+  (forall s, policy_removes (snd (rec s)) = listener_removes (snd (rec s))) ->
+  forall l s, policy_removes (snd (fst (remove_loop rec K l s))) = listener_removes (snd (fst (remove_loop rec K l s))).
+Proof.
+  intros rec K Hrec l. induction l as [|e l IH]; intros s; [reflexivity|]. simpl.
+  destruct (K e); [apply IH|]. destruct (mem e (map fst (st_hosts s))).
+  - pose proof (Hrec (with_hosts s (remove_host e (st_hosts s)))) as H1.
+    destruct (rec (with_hosts s (remove_host e (st_hosts s)))) as [s2 ev2]. pose proof (IH s2) as H2.
+    destruct (remove_loop rec K l s2) as [[s3 ev3] b3]. cbn [fst snd] in *.
+    change (policy_removes ([ELbpRemove e; EListenerRemove e] ++ ev2 ++ ev3) = listener_removes ([ELbpRemove e; EListenerRemove e] ++ ev2 ++ ev3)).
+    unfold policy_removes, listener_removes in *. rewrite !flat_map_app, H1, H2. reflexivity.
+  - pose proof (IH s) as H2. destruct (remove_loop rec K l s) as [[s3 ev3] b3]. exact H2.
+Qed.
+
+Lemma live_removes_same : forall n c f st sn,
+  policy_removes (snd (refresh_live n c f st sn)) = listener_removes (snd (refresh_live n c f st sn)).
+Proof.
+  intros n. induction n as [|n IH]; intros c f st sn; [reflexivity|].
+  rewrite refresh_live_S. cbv zeta.
+  pose proof (loop_removes_same (fun s => refresh_live n c true s sn) (keep c (found_all c st sn))
+                (fun s => IH c true s sn) (map fst (hosts_mid c st sn)) (with_hosts st (hosts_mid c st sn))) as HL.
+  destruct (remove_loop (fun s => refresh_live n c true s sn) (keep c (found_all c st sn)) (map fst (hosts_mid c st sn))
+              (with_hosts st (hosts_mid c st sn))) as [[s2 ev2] removed]. cbn [fst snd] in HL.
+  pose proof (local_proj c st sn) as H1. unfold proj4 in H1. injection H1 as _ _ H1c H1d.
+  pose proof (apply_rows_proj (accepted c st sn) (lr_hosts (local_part c st sn)) (accept_NoDup _ _ _)) as H2.
+  unfold proj4 in H2. injection H2 as _ _ H2c H2d. fold (peers_part c st sn) in H2c, H2d.
+  destruct (lr_part (local_part c st sn) && (f || negb (st_partitioner st) || snd (peers_part c st sn) || removed)); cbn [snd];
+    unfold policy_removes, listener_removes in *; rewrite !flat_map_app, H1c, H1d, H2c, H2d, HL; reflexivity.
+Qed.
+
+Lemma live_hosts : forall c f st sn, NoDup (keys (st_hosts st)) ->
+  keys (st_hosts (fst (refresh_live (live_fuel c st sn) c f st sn))) = keys (hosts_after c st sn).
+Proof.
+  intros c f st sn Hnd. destruct (live_spec c sn (live_fuel c st sn) f st Hnd) as [G1 _]; [unfold live_fuel; lia|].
+  rewrite G1, after_keys, K_indep. reflexivity.
+Qed.
+
+Lemma live_removed_once : forall c f st sn, NoDup (keys (st_hosts st)) ->
+  let r := refresh_live (live_fuel c st sn) c f st sn in
+  policy_removes (snd r) = listener_removes (snd r) /\ NoDup (listener_removes (snd r)) /\
+  (forall e, In e (listener_removes (snd r)) <-> In e (keys (st_hosts st)) /\ ~ In e (keys (st_hosts (fst r)))) /\
+  nofuel (snd r).
+Proof.
+  intros c f st sn Hnd r. subst r. split; [apply live_removes_same|].
+  rewrite (live_hosts c f st sn Hnd).
+  destruct (live_spec c sn (live_fuel c st sn) f st Hnd) as [_ [G2 [G3 G4]]]; [unfold live_fuel; lia|].
+  split; [exact G2|]. split; [|exact G4]. intros e. fold (R (snd (refresh_live (live_fuel c st sn) c f st sn))).
+  rewrite G3, <- In_gone_iff. unfold gone_keys. rewrite filter_In, negb_true_iff, K_indep. tauto.
+Qed.
